@@ -26,7 +26,7 @@ COMMON_ASSUMPTIONS = [
     "the reference models in /verif/sim/plonksim/src (rm_*.rs) are the trusted base.",
 ]
 
-C19_RULE = "one evaluation = one kernel call compared with the same call under the canonical environment (schedule independence: pool size T from the menu incl. both sides of the >=4-thread switch, seeded schedule), or one sampled output index compared with the mathematical definition computed by Horner evaluation in the harness (fft(a)[i] = sum_j a_j w^(ij); coset form with the field generator; ifft; coset_ifft), or one algebraic identity (ifft(fft(a)) = a, coset_ifft(coset_fft(a)) = a, sum_i L_i(tau) f(w^i) = f(tau) with tau inside and outside the domain, barycentric vs direct evaluation outside and at a point of the domain, vanishing polynomial closed forms). Domain sizes 2^0..2^14 (both sides of the 2^12 parallel threshold), input lengths shorter than, equal to and (up to 2^12) longer than the domain, vectors with zeros / trailing zeros / unit vectors. Non-trivial = non-canonical environment or a definitional check; distinct = hash of (input vector, domain, kernel, environment or index)."
+C19_RULE = "one evaluation = one kernel call compared with the same call under the canonical environment (schedule independence: pool size T from the menu incl. both sides of the >=4-thread switch, seeded schedule), or one sampled output index compared with the mathematical definition computed by Horner evaluation in the harness (fft(a)[i] = sum_j a_j w^(ij); coset form with the field generator; ifft; coset_ifft), or one algebraic identity (ifft(fft(a)) = a, coset_ifft(coset_fft(a)) = a, sum_i L_i(tau) f(w^i) = f(tau) with tau inside and outside the domain, barycentric vs direct evaluation outside and at a point of the domain, vanishing polynomial closed forms over cosets of arbitrary degree, incl. degrees that do not divide the domain size). Domain sizes 2^0..2^14 (both sides of the 2^12 parallel threshold), input lengths shorter than, equal to and (up to 2^12) longer than the domain, vectors with zeros / trailing zeros / unit vectors. Non-trivial = non-canonical environment or a definitional check; distinct = hash of (input vector, domain, kernel, environment or index)."
 
 
 def c17_coverage(agg):
@@ -74,14 +74,14 @@ PROPS = {
         "level": "exploration",
         "runs": {"quick": 800, "thorough": 20000},
         "budget_s": {"quick": 400, "thorough": 3000},
-        "rule": "one evaluation = one proving request on a faulty host: the value stored at a seeded witness-allocation instant k is corrupted (same menu as C02) and everything computed afterwards proceeds honestly, or one operand of one arithmetic row is re-wired to a fresh witness with another value (twin: rows hold, a compiled copy constraint breaks); the unsatisfied-circuit check stays on. Oracle: the independent row-by-row evaluator RM-rows (each identity component of the arithmetic / range / logic / fixed-base / curve-addition widgets separately, next-row wires cyclic over the padded domain, compiled copy constraints value-wise) on the snapshot of the faulted instance against the compiled layout: satisfied => Prover::prove is Ok and the proof is accepted by the real and the reference verifier; violated => Err(CircuitUnsatisfied); other row count => Err(InvalidCircuitSize); synthesis error => that error; never a panic. Programs include raw rows with arbitrary selector combinations and a selected row on the last row of a full domain. Thorough tier: for every 8th program with <= 300 witnesses every allocation instant x 8 fixed corruption kinds is enumerated. Non-trivial = the fault changed a stored value (or a twin).",
+        "rule": "one evaluation = one proving request on a faulty host: the value stored at a seeded witness-allocation instant k is corrupted (same menu as C02) and everything computed afterwards proceeds honestly, or one operand of one arithmetic row is re-wired to a fresh witness with another value (twin: rows hold, a compiled copy constraint breaks); the unsatisfied-circuit check stays on. Oracle: the independent row-by-row evaluator RM-rows (each identity component of the arithmetic / range / logic / fixed-base / curve-addition widgets separately, next-row wires cyclic over the padded domain, compiled copy constraints value-wise) on the snapshot of the faulted instance against the compiled layout: satisfied => Prover::prove is Ok and the proof is accepted by the real and the reference verifier; violated => Err(CircuitUnsatisfied); other row count => Err(InvalidCircuitSize); synthesis error => that error; never a panic. Programs include raw rows with arbitrary selector combinations, a selected row on the last row of a full domain, twins at exactly 2^k rows, and symmetric-pair programs (two rows half a domain apart violated by the same amount, so that sum e_i w^i-style cancellations in the quotient are exercised). Thorough tier: for every 8th program with <= 300 witnesses every allocation instant x 8 fixed corruption kinds is enumerated. Non-trivial = the fault changed a stored value (or a twin).",
         "assumptions": ["RM-rows treats each identity component separately; the prover combines them with random separation challenges, so the two can differ only with probability ~2^-250", "RM-rows (sim/plonksim/src/rm_rows.rs) and RM-verify are the trusted base"],
     },
     "C06": {
         "level": "exploration",
         "runs": {"quick": 240, "thorough": 6000},
         "budget_s": {"quick": 400, "thorough": 3000},
-        "rule": "one evaluation = one check on a proof computed under a scripted RNG: (a) the call log of the RNG seam during Prover::prove is exactly 14 x fill_bytes(64) and no draw happens before circuit synthesis finished; (b) for each of the 14 draws the proof is recomputed with that single draw replaced by draw + D and the first proof element that may move is compared with D x [mask slot] computed from SRS points: a wire slot moves exactly one of the four wire commitments by D[X^(n+i) - X^i] (i in 0,1), a z slot leaves the wire commitments unchanged and moves z_comm by D[X^(n+i) - X^i] (i in 0,1,2), a quotient slot leaves wire and z commitments unchanged and moves two adjacent quotient-share commitments by +D[X^n] and -D[1]; the map draw -> slot must be a bijection onto the 14 slots (draw order not prescribed); (c) with that bijection, the witness snapshot of the proving run and beta, gamma, z re-derived by the reference transcript, the 8 wire / z evaluations equal the barycentric evaluation of the unmasked witness column (or of the permutation accumulator recomputed from the compiled wiring) plus the prescribed mask (b0 + b1 x (+ b2 x^2)) Z_H(x) at x = z or z*omega; (d) two proofs of one witness under scripts that differ in every draw share none of the 11 commitments and none of the 8 wire / z evaluations. Non-trivial = every substitution, opening and disjointness check.",
+        "rule": "one evaluation = one check on a proof computed under a scripted RNG: (a) the call log of the RNG seam during Prover::prove is exactly 14 x fill_bytes(64) and no draw happens before circuit synthesis finished; (b) for each of the 14 draws the proof is recomputed with that single draw replaced by draw + D and the first proof element that may move is compared with D x [mask slot] computed from SRS points: a wire slot moves exactly one of the four wire commitments by D[X^(n+i) - X^i] (i in 0,1), a z slot leaves the wire commitments unchanged and moves z_comm by D[X^(n+i) - X^i] (i in 0,1,2), a quotient slot leaves wire and z commitments unchanged and moves two adjacent quotient-share commitments by +D[X^n] and -D[1]; the map draw -> slot must be a bijection onto the 14 slots (draw order not prescribed); (c) with that bijection, the witness snapshot of the proving run and beta, gamma, z re-derived by the reference transcript, the 8 wire / z evaluations equal the barycentric evaluation of the unmasked witness column (or of the permutation accumulator recomputed from the compiled wiring) plus the prescribed mask (b0 + b1 x (+ b2 x^2)) Z_H(x) at x = z or z*omega; (d) two proofs of one witness under scripts that differ in every draw share none of the 11 commitments and none of the 8 wire / z evaluations; (e) a script in which one draw is zero (64 zero bytes) still yields exactly 14 draws and a proof that is a function of the script alone (two runs byte-identical). Gate counts include 2^k and 2^k-1 (no unused rows), domains up to 2^11. Non-trivial = every substitution, opening and disjointness check.",
         "assumptions": ["SRS points are read from PublicParameters::to_var_bytes(); RM-verify's transcript re-derives the challenges", "domain sizes n <= 64 mostly, 128..1024 in a share of the runs"],
     },
     "C07": {
@@ -95,7 +95,7 @@ PROPS = {
         "level": "exploration",
         "runs": {"quick": 500, "thorough": 12000},
         "budget_s": {"quick": 400, "thorough": 3000},
-        "rule": "one evaluation = (a) one route pair: a generated program (unused witnesses, repeated and distinct selector tuples, selectors drawn from the compressor's built-in constant table incl. Hades constants in half of the runs, zero-valued public inputs, public input on first/last row, raw rows) x label x SRS degree from {needed-7, needed-1, needed, needed+1, needed/2, 2*needed, 2*needed-1} compiled directly (compile_with_circuit or compile::<C>) and through compress()+compile_with_compressed under independently chosen pool / schedule / hash-seed environments; both must fail, or both succeed with byte-identical Prover::to_bytes and Verifier::to_bytes, and they must succeed exactly when the degree admits the circuit; or (b) one hostile description fed to compile_with_compressed: structure-aware edits of a valid description (public-input rows out of range / unsorted / duplicated, witness count too small / huge / sparse, scalar / polynomial / witness indices out of range, non-canonical scalar, extra constraints / polynomials / scalars beyond the capacity, trailing bytes inside the payload and after the deflate stream, 32-bit array headers announcing 2^32-1 elements, deflate bombs, flipped Hades flag, no multiplication gates, dropped leading rows, empty description) and the disk-fault catalogue; must-reject edits must yield Err, everything else Err or keys that survive their own encoding, pass the strict parsers and prove without panicking; peak allocation <= 64 KiB x max_constraints(pp) + 8 MiB. Non-trivial = every route pair (two independent environments) and every description that differs from the valid one.",
+        "rule": "one evaluation = (a) one route pair: a generated program (unused witnesses, repeated and distinct selector tuples, selectors drawn from the compressor's built-in constant table incl. Hades constants in half of the runs, zero-valued public inputs, public input on first/last row, raw rows, dense-selector programs with more distinct non-table selector values than capacity + 11) x label x SRS degree from {needed-7, needed-1, needed, needed+1, needed/2, 2*needed, 2*needed-1} compiled directly (compile_with_circuit or compile::<C>) and through compress()+compile_with_compressed under independently chosen pool / schedule / hash-seed environments; both must fail, or both succeed with byte-identical Prover::to_bytes and Verifier::to_bytes, and they must succeed exactly when the degree admits the circuit; or (b) one hostile description fed to compile_with_compressed: structure-aware edits of a valid description (public-input rows out of range / unsorted / duplicated, witness count too small / huge / sparse, scalar / polynomial / witness indices out of range, non-canonical scalar, extra constraints / polynomials / scalars beyond the capacity, trailing bytes inside the payload and after the deflate stream, 32-bit array headers announcing 2^32-1 elements, deflate bombs, flipped Hades flag, no multiplication gates, dropped leading rows, empty description) and the disk-fault catalogue; must-reject edits must yield Err, everything else Err or keys that survive their own encoding, pass the strict parsers and prove without panicking; peak allocation <= 64 KiB x max_constraints(pp) + 8 MiB. Non-trivial = every route pair (two independent environments) and every description that differs from the valid one.",
         "assumptions": ["the allocation budget is calibrated with >= 4x head-room over the largest valid description the parameters admit"],
     },
     "C16": {
@@ -110,7 +110,7 @@ PROPS = {
         "level": "fault_enumeration",
         "runs": {"quick": 420, "thorough": 12000},
         "budget_s": {"quick": 500, "thorough": 3000},
-        "rule": "one evaluation = one faulted byte string fed to a checked decoder (Prover::try_from_bytes incl. the raw commit key, Verifier::try_from_bytes, Proof::from_slice, PublicParameters::from_slice, Compiler::compile_with_compressed) in a build with debug assertions and overflow checks on. Enumerated completely (exhaustive sub-spaces): every single-bit flip of the minimal deployment's verifier key, proof and compressed circuit, of the prover key's header and the first and last 512 bytes of each of its sections (label, prover key, raw commit key, verifier key), and of the parameters' opening key and first/last four points. Explored by seeded search: the disk-fault catalogue (multi-bit flips, short / torn / lost / misdirected writes, zeroed blocks, duplication, garbage, edits of every length and count field to 0,1,v+-1,2^31,2^32,2^63,u64::MAX,..., raw-point edits: flag byte, non-reduced limbs, infinity flag with coordinates, off-curve, swapped coordinates; non-canonical scalars; compressed-G1 flag games; structure-aware compressed-circuit edits) on generated deployments. Oracle: no panic (abort / hang caught by the supervisor through pre-case log lines), peak allocation <= 16 x input + 1 MiB (compressed circuits: bounded by the parameters' capacity), accepted values re-encode to bytes that pass independent strict parsers (canonical scalars, valid compressed points, raw points with flag in {0,1}, reduced limbs, on curve, prime-order subgroup, non-identity opening key) and can be used (prove / verify / compile) without panicking. Non-trivial = the bytes differ from the stored ones; distinct = hash of the faulted bytes.",
+        "rule": "one evaluation = one faulted byte string fed to a checked decoder (Prover::try_from_bytes incl. the raw commit key, Verifier::try_from_bytes, Proof::from_slice, PublicParameters::from_slice, Compiler::compile_with_compressed) in a build with debug assertions and overflow checks on. Enumerated completely (exhaustive sub-spaces): every single-bit flip of the minimal deployment's verifier key, proof and compressed circuit, of the prover key's header and the first and last 512 bytes of each of its sections (label, prover key, raw commit key, verifier key), and of the parameters' opening key and first/last four points; every truncation length of the verifier key, proof, compressed circuit and small parameters, and every length within 48 bytes of each prover-key section boundary (plus the first 64 lengths). Explored by seeded search: the disk-fault catalogue (multi-bit flips, short / torn / lost / misdirected writes, zeroed blocks, duplication, garbage, edits of every length and count field to 0,1,v+-1,2^31,2^32,2^63,u64::MAX,..., raw-point edits: flag byte, non-reduced limbs, infinity flag with coordinates, off-curve, swapped coordinates; non-canonical scalars; compressed-G1 flag games; structure-aware compressed-circuit edits) on generated deployments. Oracle: no panic (abort / hang caught by the supervisor through pre-case log lines), peak allocation <= 16 x input + 1 MiB (compressed circuits: bounded by the parameters' capacity), accepted values re-encode to bytes that pass independent strict parsers (canonical scalars, valid compressed points, raw points with flag in {0,1}, reduced limbs, on curve, prime-order subgroup, non-identity opening key) and can be used (prove / verify / compile) without panicking. Non-trivial = the bytes differ from the stored ones; distinct = hash of the faulted bytes.",
         "assumptions": ["no claim is made about what a semantically altered but well-formed key proves or accepts (the formats carry no integrity tag)", "in the quick tier one quarter of the accepted single-bit neighbours of the prover key are additionally used for proving, in the thorough tier all of them"],
     },
     "C19": {
